@@ -3,7 +3,11 @@ use crate::core::Monitor;
 pub mod c01;
 pub mod c02;
 pub mod c04;
+pub mod c07;
+pub mod c08;
 pub mod c13;
+pub mod c16;
+pub mod c17;
 pub mod c19;
 
 pub fn get(id: &str) -> Option<Box<dyn Monitor>> {
@@ -11,7 +15,11 @@ pub fn get(id: &str) -> Option<Box<dyn Monitor>> {
         "C01" => Some(Box::new(c01::C01)),
         "C02" => Some(Box::new(c02::C02)),
         "C04" => Some(Box::new(c04::C04)),
+        "C07" => Some(Box::new(c07::C07)),
+        "C08" => Some(Box::new(c08::C08)),
         "C13" => Some(Box::new(c13::C13)),
+        "C16" => Some(Box::new(c16::C16)),
+        "C17" => Some(Box::new(c17::C17)),
         "C19" => Some(Box::new(c19::C19)),
         _ => None,
     }
